@@ -139,6 +139,9 @@ func TestVerifC07(t *testing.T) {
 		if o.Panicked != "" {
 			line += " PANIC=" + strings.ReplaceAll(o.Panicked, " ", "_")
 		}
+		if o.HardTimeout {
+			line += " hard=1"
+		}
 		// tables for what readFirstPacket extracts from the same bytes as a stream
 		fmt.Fprintf(w, "%s | %s | %s\n", line, tb, vfC09Tables(pkt, false, fac, c.Now))
 		w.Flush() // see c09_test.go: the first case without a line is the one that killed the process
